@@ -296,9 +296,18 @@ impl<R: Round, const B: Word> FBig<R, B> {
     #[allow(non_upper_case_globals)]
     pub fn with_base<const NewB: Word>(self) -> Rounded<FBig<R, NewB>> {
         // if self.context.precision is zero, then precision is also zero
-        let precision =
-            Repr::<B>::BASE.pow(self.context.precision).log2_bounds().0 / NewB.log2_bounds().1;
-        self.with_base_and_precision(precision as usize)
+        // the bound is exact when one base is a power of the other (the estimate below can be
+        // one less than the maximum for large precisions)
+        let (down, up) = (ilog_exact(B, NewB) as usize, ilog_exact(NewB, B) as usize);
+        let precision = if down > 1 {
+            self.context.precision * down
+        } else if up > 1 {
+            self.context.precision / up
+        } else {
+            (Repr::<B>::BASE.pow(self.context.precision).log2_bounds().0 / NewB.log2_bounds().1)
+                as usize
+        };
+        self.with_base_and_precision(precision)
     }
 
     /// Explicitly change the base of the float number with given precision (under the new base).
